@@ -85,6 +85,7 @@ macro_rules! dispatch {
             "C11" => $f(&props::c11::C11 $(, $arg)*),
             "C09" => $f(&props::c09::C09 $(, $arg)*),
             "C14" => $f(&props::c14::C14 $(, $arg)*),
+            "C15" => $f(&props::c15::C15 $(, $arg)*),
             other => {
                 eprintln!("unknown property {}", other);
                 3
@@ -148,6 +149,13 @@ fn main() {
                 }
                 if what.contains("overview") {
                     println!("overview: {:?}", api::overview().map_err(|e| e.text()));
+                }
+                // mcv show nav:ZoomIn,MoveNext,... '<math>..</math>'
+                if let Some(cmds) = what.split(' ').find_map(|w| w.strip_prefix("nav:")) {
+                    for c in cmds.split(',') {
+                        let r = api::nav_cmd(c).map_err(|e| e.text());
+                        println!("{} -> {:?}   at {:?}", c, r, api::nav_id().map_err(|e| e.text().chars().take(80).collect::<String>()));
+                    }
                 }
             });
             0
